@@ -71,26 +71,19 @@ Proof.
   intros Hq. unfold C13_mad_imu_a0_R. cbv zeta. unit_sqrt Hq. gate1. case_gyr Hq g0 g1 g2.
   dr_leaf Hq w x y z g0 g1 g2 dt.
 Qed.
-(* with a magnetometer reading present or not: a zero magnetometer makes updateMARG delegate to updateIMU at the
-   filter's own Dt = 1/100 (the caller's dt is dropped on that path) *)
+(* with a magnetometer reading present or null: a null magnetometer makes updateMARG delegate to updateIMU with the
+   caller's dt, so the step is the same dead reckoning either way *)
 Lemma mad_marg_a0 w x y z g0 g1 g2 m0 m1 m2 dt : sq4 w x y z = 1 ->
-  exists h, (h = dt \/ h = 1/100) /\ C13_mad_marg_a0_R w x y z g0 g1 g2 m0 m1 m2 dt = Val (dr w x y z g0 g1 g2 h ++ mad_cfg).
+  C13_mad_marg_a0_R w x y z g0 g1 g2 m0 m1 m2 dt = Val (dr w x y z g0 g1 g2 dt ++ mad_cfg).
 Proof.
-  intros Hq. unfold C13_mad_marg_a0_R. cbv zeta. unit_sqrt Hq. gate1.
-  destruct (Req_EM_T 0 (sqrt (g0 * g0 + g1 * g1 + g2 * g2))) as [Hg|Hg].
-  - exists dt. split; [left; reflexivity|]. apply sqrt3_0 in Hg. destruct Hg as (-> & -> & ->). rewrite (dr_g0 _ _ _ _ _ Hq). reflexivity.
-  - destruct (Req_EM_T 0 (sqrt (m0 * m0 + m1 * m1 + m2 * m2))) as [Hm|Hm].
-    + exists (1/100). split; [right; reflexivity|]. dr_leaf Hq w x y z g0 g1 g2 (1/100).
-    + exists dt. split; [left; reflexivity|]. dr_leaf Hq w x y z g0 g1 g2 dt.
+  intros Hq. unfold C13_mad_marg_a0_R. cbv zeta. unit_sqrt Hq. gate1. case_gyr Hq g0 g1 g2.
+  destruct (Req_EM_T 0 (sqrt (m0 * m0 + m1 * m1 + m2 * m2))) as [Hm|Hm]; dr_leaf Hq w x y z g0 g1 g2 dt.
 Qed.
 Lemma mad_marg_am0 w x y z g0 g1 g2 dt : sq4 w x y z = 1 ->
-  C13_mad_marg_am0_R w x y z g0 g1 g2 dt = Val (dr w x y z g0 g1 g2 (1/100) ++ mad_cfg) \/
-  (g0 = 0 /\ g1 = 0 /\ g2 = 0 /\ C13_mad_marg_am0_R w x y z g0 g1 g2 dt = Val ([w;x;y;z] ++ mad_cfg)).
+  C13_mad_marg_am0_R w x y z g0 g1 g2 dt = Val (dr w x y z g0 g1 g2 dt ++ mad_cfg).
 Proof.
-  intros Hq. unfold C13_mad_marg_am0_R. cbv zeta. unit_sqrt Hq. gate1.
-  destruct (Req_EM_T 0 (sqrt (g0 * g0 + g1 * g1 + g2 * g2))) as [Hg|Hg].
-  - right. apply sqrt3_0 in Hg. destruct Hg as (-> & -> & ->). repeat split; reflexivity.
-  - left. dr_leaf Hq w x y z g0 g1 g2 (1/100).
+  intros Hq. unfold C13_mad_marg_am0_R. cbv zeta. unit_sqrt Hq. gate1. case_gyr Hq g0 g1 g2.
+  dr_leaf Hq w x y z g0 g1 g2 dt.
 Qed.
 
 (* ---- Mahony: the output is [q'; b'] — the carried gyro bias b is returned unchanged on a dropout ----------- *)
